@@ -18,7 +18,7 @@ LEVEL_TEXT = ('Partial. Coq theorems over R about the hand model of trust_region
               'flag=False => returned point is the current (last accepted or start) iterate and the trace ends with that exit; '
               'inner loop leaves within k+1 passes when trSize*t1^k < min_tr_size (0<t1<1, 0<min_tr_size, eta1<=eta2). '
               'Finding F1 (converged exit can go uphill) proved for the binary64 instance of the model by vm_compute and replayed on the code. '
-              'Not proved (tested by L2 only): success on strictly convex problems, finiteness of iterates, the +0.0 model-objective corner, the driver nonlinear_equation_solve.')
+              'Not proved (tested by L2 only): success on strictly convex problems (dedicated stream: default settings, 1..40 unknowns, condition numbers 1..1e3, three preconditioners, against an independent Newton reference), finiteness of iterates, the +0.0 model-objective corner, the driver nonlinear_equation_solve.')
 TECHNIQUE = 'Coq proof (Reals, lra/nra) on a hand-written state-machine model; vm_compute/PrimFloat correspondence on seeded polynomial objectives'
 GEN = ['EquationSolver']
 TARGETS = ['model/M_C06_Vec.vo', 'model/M_C06_CG.vo', 'model/M_C01_TR.vo', 'proofs/L_C06_Vec.vo', 'proofs/L_C01.vo', 'proofs/L_C01_F1.vo']
@@ -26,7 +26,7 @@ COQ_FILES = ['base/Num.v', 'model/M_C06_Vec.v', 'model/M_C06_CG.v', 'model/M_C01
 TRUSTED = ['Coq 8.16.1 kernel + vm_compute (no native_compute)',
            'hand model model/M_C01_TR.v (uses the C06 CG/dogleg model and the generated scalar kernels) tied only by the correspondence: event kinds/order, flags, counts exact; points within 1e-7 relative',
            'harness: duck-typed polynomial objectives mirrored in Gallina (Section Poly), recording callback / update_precond, float<->(mantissa,exponent) exchange',
-           'near-tie rule: a mismatch counts as unstable only if (a) the IMPLEMENTATION itself changes its discrete trace / result when the arguments of its oracles are perturbed by <= 2 ulp (4 trials), or (b) the run reached objective differences between reported iterates of <= 64 ulp (rho is then cancellation noise)',
+           'near-tie rule: a mismatch counts as unstable only if (a) the IMPLEMENTATION itself changes its discrete trace / result when the arguments of its oracles are perturbed by <= 2 ulp (8 trials), (c) some gradient the solver evaluated had |g|^2 within 1e-6 relative of tol^2 (the convergence test is a near tie), or (b) the run reached objective differences between reported iterates of <= 64 ulp (rho is then cancellation noise)',
            'theorems are over exact reals (zero denominators treated as +0); binary64 rounding is covered only by the correspondence']
 ASSUMPTIONS = ['none on the oracles (value, gradient, hessian_vec, preconditioner are arbitrary functions)', '0 <= eta1 for the descent clause; use_incremental_objective=False for the descent clause',
                '0 < t1 < 1, 0 < min_tr_size, eta1 <= eta2 for inner-loop termination', 'exact real arithmetic in theorems']
@@ -92,6 +92,9 @@ class PolyObjective:
         self.xp = self.x0
         self.log = []
         self.gradient_and_tangent = None
+        self.tol = None               # set by run_impl: the convergence test is gg < tol**2 on every gradient the solver evaluates
+        self.conv_margin = math.inf   # min over gradient evaluations of |gg - tol^2| / tol^2 (near-tie detection of the convergence test)
+        self.stability_checks = 0
 
     def _n(self, x):
         if self.noise is None:
@@ -104,7 +107,15 @@ class PolyObjective:
 
     def gradient(self, x):
         x = self._n(x)
-        return self.A @ x + self.b + 3 * (self.c * (x * x)) + 4 * (self.d * (x * x * x))
+        g = self.A @ x + self.b + 3 * (self.c * (x * x)) + 4 * (self.d * (x * x * x))
+        if self.tol is not None:
+            gg, t2 = float(g @ g), self.tol ** 2
+            if gg == gg:
+                self.conv_margin = min(self.conv_margin, abs(gg - t2) / t2)
+        return g
+
+    def check_stability(self, x):
+        self.stability_checks += 1
 
     def _extra(self, x):
         return 6 * (self.c * x) + 12 * (self.d * (x * x))
@@ -167,7 +178,8 @@ def gen_cases(ctx, count, stream='poly'):
                   max_cg_iters=r.choice([50, 50, 1, 2]), max_cumulative_cg_iters=r.choice([1000, 1000, 3]),
                   cg_inexact_solve_ratio=1e-5, tr_size=r.choice([2.0, 2.0, 0.5, 1e-6, 100.0]),
                   min_tr_size=r.choice([1e-8, 1e-8, 0.3, 1e-3]),
-                  use_preconditioned_inner_product_for_cg=r.random() < 0.4, use_incremental_objective=r.random() < 0.15)
+                  use_preconditioned_inner_product_for_cg=r.random() < 0.4, use_incremental_objective=r.random() < 0.15,
+                  check_stability=r.random() < 0.15)
         st['eta2'] = max(st['eta2'], st['eta1'])
         out.append(dict(n=n, kind=kind, A=a, E=e, b=b, c=c, d=d, pk=r.choice([0, 0, 1, 1, 2]), x0=x0, st=st))
     return out
@@ -191,6 +203,22 @@ def directed_cases(ctx, count):
     return out
 
 
+def too_small_cases(ctx, count):
+    """stream that reaches the 'trust region is still too small' exit: a model Hessian of the wrong sign (E = -3A) makes steps be rejected, with a large
+    min_tr_size the radius falls below it right after the preconditioner retry"""
+    r = ctx.rng('toosmall')
+    out = []
+    for c in gen_cases(ctx, 6 * count, 'toosmall-base'):
+        if c['kind'] == 'convex' or len(out) >= count:
+            continue
+        n = c['n']
+        c['E'] = [[-3.0 * c['A'][i][j] for j in range(n)] for i in range(n)]
+        c['st'].update(min_tr_size=0.3, tr_size=r.choice([0.5, 2.0]), max_trust_iters=25, eta1=1e-10, eta2=0.1, use_incremental_objective=False)
+        c['kind'] = 'toosmall-' + c['kind']
+        out.append(c)
+    return out
+
+
 def exact_switch_cases():
     """F1's polynomial, a pure quadratic whose first step is exact, a zero-gradient start, a flat direction (modelObjective = 0)"""
     base = dict(t1=0.25, t2=1.75, eta1=1e-10, eta2=0.1, eta3=0.5, max_trust_iters=100, tol=1e-8, max_cg_iters=50, max_cumulative_cg_iters=1000,
@@ -201,6 +229,9 @@ def exact_switch_cases():
            dict(n=2, kind='zero-gradient', A=[[1.0, 0.0], [0.0, 1.0]], E=[[0.0, 0.0], [0.0, 0.0]], b=[0.0, 0.0], c=[0.0, 0.0], d=[0.0, 0.0], pk=0, x0=[0.0, 0.0], st=dict(base)),
            dict(n=1, kind='concave', A=[[-1.0]], E=z1, b=[1.0], c=[0.0], d=[0.0], pk=0, x0=[0.0], st=dict(base, max_trust_iters=4)),
            dict(n=1, kind='linear', A=[[0.0]], E=z1, b=[1.0], c=[0.0], d=[0.0], pk=0, x0=[0.0], st=dict(base, max_trust_iters=3)),
+           # binary64 overflow: f(x0) = inf although f is a convex quartic; realObjective = inf - inf = NaN, so rho is NaN on every pass.
+           # The radius update is written `not rho >= eta2` precisely so that a NaN shrinks the region and the inner loop still terminates.
+           dict(n=1, kind='overflow-nan-rho', A=[[1.0]], E=z1, b=[0.0], c=[0.0], d=[1.0], pk=0, x0=[1e80], st=dict(base, max_trust_iters=5)),
            dict(n=1, kind='inconsistent-hessian', A=[[1.0]], E=[[-3.0]], b=[1.0], c=[0.0], d=[1.0], pk=0, x0=[0.5], st=dict(base, max_trust_iters=6))]
     return out
 
@@ -213,6 +244,7 @@ def run_impl(case, mods, x0=None, noise=None):
     jnp, ES = mods
     obj = PolyObjective(jnp, case, x0, noise)
     st = settings_of(ES, case['st'])
+    obj.tol = st.tol
 
     def cb(x, o):
         obj.log.append(('cb', [float(t) for t in x]))
@@ -270,6 +302,8 @@ def concl(case, out, mods):
                 last = (i == len(vals) - 1) and out['flag']
                 bad.append(('uphill-converged-exit' if last else 'uphill',
                             'objective increased from %.17g to %.17g at reported iterate %d of %d%s' % (vals[i - 1], vals[i], i, len(vals) - 1, ' (the converged exit)' if last else '')))
+    if case['st'].get('check_stability') and (out['flag'] or 'Reached the maximum number' in out.get('text', '')) and obj.stability_checks < 1:
+        bad.append(('stability', 'check_stability requested but objective.check_stability was not called at the %s exit' % ('converged' if out['flag'] else 'max-iterations')))
     if out['flag']:
         g = obj.gradient(jnp.array(out['x']))
         if not float(g @ g) < st.tol ** 2:
@@ -339,7 +373,7 @@ def close_vec(a, b, rt=1e-7, at=1e-9):
 
 def correspondence(ctx, model_ok):
     mods = _mods()
-    cases = exact_switch_cases() + gen_cases(ctx, ctx.n(150, 1500)) + directed_cases(ctx, ctx.n(100, 600))
+    cases = exact_switch_cases() + gen_cases(ctx, ctx.n(150, 1500)) + directed_cases(ctx, ctx.n(100, 600)) + too_small_cases(ctx, ctx.n(16, 100))
     outs = []
     hist = {}
     distinct = set()
@@ -386,6 +420,7 @@ def correspondence(ctx, model_ok):
     ctx.sample(dict(kind=cases[-1]['kind'], n=cases[-1]['n'], flag=outs[-1]['flag'], events=[k for k, _ in outs[-1]['log']]))
     # the driver: parameters replaced before the solve (optimism.Objective + nonlinear_equation_solve through the shim)
     driver_stream(ctx, mods)
+    convex_success_stream(ctx, mods)
     if not model_ok:
         return
     res = C.coq_eval(IMPORTS, [model_expr(c) for c in cases], 'C01', shard=40, preamble=PREAMBLE, timeout=900)
@@ -394,7 +429,8 @@ def correspondence(ctx, model_ok):
         flag, x, ev = parse_model(zs, c['n'])
         if any(k == 'fuel' for k, _, _ in ev):
             fuel += 1
-        mlog = [('pc' if k == 'pc' else 'cb', p) for k, p, _ in ev if k in ('cinit', 'accept', 'conv', 'small', 'pc')]
+        cbk = ('cinit', 'accept', 'conv', 'small', 'pc') + (('maxit',) if c['st'].get('check_stability') else ())
+        mlog = [('pc' if k == 'pc' else 'cb', p) for k, p, _ in ev if k in cbk]
         mdisc = (flag, tuple(k for k, _ in mlog))
         if o.get('hang'):
             continue
@@ -420,7 +456,10 @@ def correspondence(ctx, model_ok):
         for u, v in zip(vs, vs[1:]):
             if abs(u - v) <= 64 * math.ulp(max(abs(u), abs(v), 1e-300)):
                 stable = False
-        for k in range(4 if stable else 0):
+        # (c): some gradient the solver evaluated had |g|^2 within 1e-6 (relative) of tol^2: the convergence test itself is a near tie
+        if o['obj'].conv_margin < 1e-6:
+            stable = False
+        for k in range(8 if stable else 0):
             o2 = run_impl(c, mods, None, onp.random.RandomState(ctx.seed % 100000 + 17 * k))
             if discrete(o2) != discrete(o) or not close_vec(o2['x'], o['x'], 1e-7, 1e-9):
                 stable = False
@@ -435,6 +474,74 @@ def correspondence(ctx, model_ok):
     ctx.count('model_vs_impl_mismatches', mism)
     ctx.count('unstable_near_tie_cases', unstable)
     ctx.count('model_out_of_fuel', fuel)
+
+
+def convex_success_cases(ctx, count):
+    """strictly convex problems in the stated domain: H(x) >= A with eigenvalues of A in [1, kappa], kappa <= 1e3, 1..40 unknowns,
+    quadratic or quadratic + sum d_i x_i^4 (d >= 0), identity / diagonal / stale-diagonal preconditioner, DEFAULT settings"""
+    r = ctx.rng('convex')
+    out = []
+    sizes = [1, 2, 3, 5, 10, 20] + ([40] if ctx.tier == 'thorough' else [])
+    for i in range(count):
+        n = sizes[i % len(sizes)]
+        kappa = [1.0, 10.0, 100.0, 1000.0][(i // len(sizes)) % 4]
+        m = onp.array([[r.gauss(0, 1) for _ in range(n)] for _ in range(n)])
+        q, _ = onp.linalg.qr(m)
+        lam = [kappa ** r.random() for _ in range(n)]
+        lam[0] = 1.0
+        lam[-1] = kappa if n > 1 else 1.0
+        a = (q * onp.array(lam)) @ q.T
+        a = 0.5 * (a + a.T)
+        quart = (i % 3 == 1)
+        st = dict(t1=0.25, t2=1.75, eta1=1e-10, eta2=0.1, eta3=0.5, max_trust_iters=100, tol=1e-8, max_cg_iters=50, max_cumulative_cg_iters=1000,
+                  cg_inexact_solve_ratio=1e-5, tr_size=2.0, min_tr_size=1e-8, use_preconditioned_inner_product_for_cg=False, use_incremental_objective=False)
+        out.append(dict(n=n, kind='convex-default', kappa=kappa, A=a.tolist(), E=[[0.0] * n for _ in range(n)], b=[r.uniform(-3, 3) for _ in range(n)], c=[0.0] * n,
+                        d=[r.uniform(0, 2) if quart else 0.0 for _ in range(n)], pk=r.choice([0, 1, 2]), x0=[r.uniform(-2, 2) for _ in range(n)], st=st))
+    return out
+
+
+def convex_reference(case):
+    a, b, d = onp.array(case['A']), onp.array(case['b']), onp.array(case['d'])
+    x = onp.zeros(case['n'])
+    f = lambda v: 0.5 * v @ a @ v + b @ v + d @ v ** 4
+    for _ in range(200):
+        g = a @ x + b + 4 * d * x ** 3
+        if onp.linalg.norm(g) < 1e-14:
+            break
+        step = onp.linalg.solve(a + onp.diag(12 * d * x ** 2), -g)
+        t = 1.0
+        while f(x + t * step) > f(x) + 1e-4 * t * (g @ step) and t > 1e-12:
+            t *= 0.5
+        x = x + t * step
+    return x
+
+
+def convex_success_stream(ctx, mods):
+    """L2 for the clause 'on well-conditioned strictly convex problems with default settings it reports success and returns the unique minimizer'"""
+    jnp, ES = mods
+    dflt = ES.get_settings()
+    n_ok = 0
+    for c in convex_success_cases(ctx, ctx.n(36, 240)):
+        # the case's settings must BE the defaults of get_settings (so that a change of a default is seen here)
+        st = dict(c['st'])
+        for k in st:
+            st[k] = getattr(dflt, k)
+        c['st'] = st
+        o = run_impl(c, mods)
+        ctx.count('evaluations')
+        ctx.count('convex_default_cases')
+        bad = [b for _, b in concl(c, o, mods)]
+        if not o['flag']:
+            bad.append('default settings did not report success on a strictly convex problem (n=%d, condition number %g, %s preconditioner)' % (c['n'], c['kappa'], ['identity', 'diagonal', 'stale diagonal'][c['pk']]))
+        else:
+            xs = convex_reference(c)
+            dist = float(onp.linalg.norm(onp.array(o['x']) - xs))
+            if not dist <= 2.0 * dflt.tol / 1.0 + 1e-12 * (1.0 + float(onp.linalg.norm(xs))):      # |x - x*| <= |grad f(x)| / lambda_min, lambda_min(A) = 1
+                bad.append('success reported but the returned point is %.3g away from the unique minimiser (n=%d, condition number %g)' % (dist, c['n'], c['kappa']))
+            n_ok += 1
+        for b in bad:
+            ctx.fail('conclusion', 'trust_region_minimize (convex, default settings): ' + b, case=dict({k: v for k, v in c.items()}, tag='convex-default'), concrete=True)
+    ctx.cov['convex_default_successes'] = n_ok
 
 
 def driver_stream(ctx, mods):
